@@ -961,6 +961,7 @@ func (w *c16Worker) oneType(idx int) {
 
 func checkC16(c *Ctx) {
 	res := c.Res
+	res.ASCIIModel = true
 	res.Rule = "TYPE stream: config struct types built by reflect.StructOf (depth <= 3, 1-5 fields per struct, names from a vocabulary of capitalised words and initialisms; dials/dialsenv/dialsflag/dialspflag/dialsalias/dialsdesc tags; 6% of the types draw from a list of odd tags) plus a declared corpus (4%); " +
 		"every leaf is drawn from a pool of 49 kinds, 75% as the user-defined named version (named bool/string/all int widths/floats/complex/duration, named slices and maps, named element / key / value types, named pointer types), 25% predeclared; " +
 		"struct-ish fields: generated anonymous structs by value / * / ** / slice, declared named structs by value, *, **, ***, named pointer types and pointers to them, slices / arrays / maps of structs, embedded structs, embedded *struct, embedded named slices and scalars, embedded types with methods; " +
